@@ -120,3 +120,37 @@ func init() {
 		}
 	}
 }
+
+// ctltriple: a teardown call with a Resume and a Pause coming and going around it, from the paused base with a job
+// pending (the Resume / Pause pair can dispatch a job between the teardown's wait and its claim of the status).
+func init() {
+	for _, a := range []string{"Stop", "WaitAndStop", "Restart"} {
+		a := a
+		Register(&Scenario{
+			Name:  name("ctltriple/paused/%s+Resume+Pause", a),
+			Props: []string{"C06", "C14", "C18", "C09", "C01"},
+			Mode:  "NB", Quick: 2, Thorough: 3, Shards: 8,
+			Body: func(h *H) {
+				h.Shape = Gated
+				h.HangProp = "C06"
+				w := h.NewWorker(Plain, 2)
+				q := w.Bind(Fifo, nil)
+				w.Pause()
+				q.Add(0, AddOpt{})
+				go func() { doCtl(w, a) }()
+				go func() { w.Resume(); w.Pause() }()
+				h.Quiesce(false)
+				h.Open(0)
+				h.Quiesce(true)
+				if !h.ctlInProgress(w) && w.Wk.Status() == "Stopped" {
+					if n := vrt.LiveLib(""); n > 0 {
+						h.viol("C18", "C18.leak-after-stop", "the worker reports Stopped at rest with goroutines of its own still alive:"+liveNames())
+					}
+				}
+				w.Restart()
+				h.End()
+			},
+		})
+	}
+}
+
